@@ -1,6 +1,86 @@
-(* C05 - the incremental payload stream obeys the delivery protocol.  Theorems only. *)
-From GV Require Import Base.Prelude Incr.Protocol Incr.WorkQueue Incr.Publisher Incr.StreamQueue.
+(* C05 - the incremental payload stream obeys the delivery protocol.  Theorems only; proofs in
+   Incr/StreamQueueProps.v, Incr/WorkQueueProps.v, Incr/ExploreProps.v. *)
+From GV Require Import Base.Prelude Incr.Protocol Incr.WorkQueue Incr.Publisher Incr.StreamQueue
+  Incr.Explore Incr.Universe Incr.StreamQueueProps Incr.WorkQueueProps Incr.ExploreProps.
 
+(* Stream queue order law: for every sequence of pushes, future settlements and consumer pulls, the
+   entries delivered in batches, then the terminal entry (end / failure, if the iteration ended),
+   then what the queue still holds, are exactly the pushed entries in push order: each pushed
+   entry is delivered at most once, in order, without gaps, and a failure or the end is reported
+   only after everything pushed before it has been delivered. *)
+Theorem C05_stream_order : forall ops s outs,
+  sq_run sq_init ops = (s, outs) ->
+  concat (map out_entries outs) ++ q_term s ++ sq_contents s = pushed_of ops.
+Proof. exact sq_order. Qed.
+Print Assumptions C05_stream_order.
+
+(* Termination exactly once: over every sequence of graph-event batches (enabled or not), the
+   termination event is emitted at most once, as the very last event, exactly when a batch leaves
+   no root group and no root stream; afterwards the queue is stopped (and emits nothing more). *)
+Theorem C05_terminates_exactly_once : forall E bs s s' outs,
+  stopped s = false -> run_batches E s bs = (s', outs) ->
+  (stopped s' = true /\ roots s' = [] /\ rstreams s' = [] /\
+     exists pre, concat outs = pre ++ [Termination] /\ no_term pre = true)
+  \/ (stopped s' = false /\ no_term (concat outs) = true).
+Proof. exact terminates_exactly_once. Qed.
+Print Assumptions C05_terminates_exactly_once.
+
+Theorem C05_nothing_after_termination : forall E bs s,
+  stopped s = true -> run_batches E s bs = (s, []).
+Proof. exact run_batches_stopped. Qed.
+Print Assumptions C05_nothing_after_termination.
+
+(* Bounded exhaustive exploration (partial: an explicit finite family of work graphs, one graph
+   event per batch).  For every graph of [universe] and EVERY enabled sequence of at most 5 graph
+   events over the graph's event alphabet: the graph invariant [inv] holds in the reached state
+   (pending counter = number of unfinished tasks, child lists consistent with parents, roots
+   non-empty with all their tasks running and no enclosing group left in the graph, ...), the
+   queue is never stuck, a failed task's group subtrees are removed entirely, the payload stream
+   of publish (run ...) is a valid prefix of the protocol - and a complete valid stream once the
+   queue has stopped -, and values/announcements respect the creation order. *)
+Theorem C05_protocol_and_graph_inv_bounded_partial : forall E w, In (E, w) universe ->
+  forall evs, (length evs <= 5)%nat -> Forall (fun e => In e (candidates E)) evs ->
+  enabled_path E (snd (init E w)) evs = true -> check_path E w evs = true.
+Proof. exact bounded_universe. Qed.
+Print Assumptions C05_protocol_and_graph_inv_bounded_partial.
+
+(* The same for all enabled sequences of up to 10 events on the graphs of the family with a small
+   state space; for these graphs this covers every run to termination. *)
+Theorem C05_protocol_and_graph_inv_small_graphs_partial : forall E w,
+  In (E, w) universe -> small_graph (E, w) = true ->
+  forall evs, (length evs <= 10)%nat -> Forall (fun e => In e (candidates E)) evs ->
+  enabled_path E (snd (init E w)) evs = true -> check_path E w evs = true.
+Proof. exact bounded_small. Qed.
+Print Assumptions C05_protocol_and_graph_inv_small_graphs_partial.
+
+(* what [check_path] says, as separate facts *)
+Theorem C05_check_path_meaning : forall E w evs,
+  check_path E w evs = true ->
+  let '(ig, is_, s0) := init E w in
+  let '(s1, outs) := run_batches E s0 (single evs) in
+  let ps := publish E ig is_ outs in
+  inv E s1 = true
+  /\ (stopped s1 = true \/ exists e, In e (candidates E) /\ en_single E s1 e = true)
+  /\ last_step_ok E s0 evs = true
+  /\ valid_prefix (e_parent E) ps = true
+  /\ (stopped s1 = true -> valid (e_parent E) ps = true)
+  /\ creation_ok E (concat outs) = true.
+Proof. exact check_path_facts. Qed.
+Print Assumptions C05_check_path_meaning.
+
+(* non-vacuity *)
 Example C05_example_valid :
   valid [] [mkPayload [mkPend 0 [1] 1 false 0] [] [] true; mkPayload [] [IDefer 0] [0] false] = true.
 Proof. reflexivity. Qed.
+
+Example C05_example_invalid_unannounced_completion :
+  valid [] [mkPayload [mkPend 0 [1] 1 false 0] [] [] true; mkPayload [] [] [0; 2] false] = false.
+Proof. reflexivity. Qed.
+
+(* a parent/child graph run to termination: the hypotheses of the bounded theorems are satisfiable *)
+Example C05_example_run :
+  let E := mkEnv [(2, 1)] [(1, [1]); (2, [2])] [(1, mkWork [2] [2] [])] [] in
+  let w := mkWork [1] [1] [] in
+  enabled_path E (snd (init E w)) [TaskOk 1; TaskOk 2] = true
+  /\ valid (e_parent E) (respond E w [[TaskOk 1]; [TaskOk 2]]) = true.
+Proof. split; reflexivity. Qed.
